@@ -459,6 +459,12 @@ class Interp:
             return self.read("lb", b.prefab, lt, mode)
         return self.read("lbn", b.prefab, b.name, lt, mode)
 
+    def ltnum(self, v, kind):
+        """logic type / batch mode given as enum member, number or name string"""
+        if isinstance(v, str):
+            return lt_canon(v, kind)
+        return self.num(v)
+
     def devkey(self, v):
         if isinstance(v, Pin):
             return v.key
@@ -625,6 +631,20 @@ class Interp:
                 return StackRef(("pin", "db"))
             d = args[0] if args else kw["device_id"]
             return StackRef(self.devkey(d))
+        if name == "s" and len(args) == 3:
+            self.effect("s", self.devkey(args[0]), self.ltnum(args[1], "LogicType"), self.num(args[2]))
+            return 0.0
+        if name == "sb" and len(args) == 3:
+            self.effect("sb", self.num(args[0]), self.ltnum(args[1], "LogicType"), self.num(args[2]))
+            return 0.0
+        if name == "l" and len(args) == 2:
+            return self.read("l", self.devkey(args[0]), self.ltnum(args[1], "LogicType"))
+        if name == "lb" and len(args) == 3:
+            return self.read("lb", self.num(args[0]), self.ltnum(args[1], "LogicType"), self.ltnum(args[2], "LogicBatchMethod"))
+        if name in ("move",) and len(args) == 1:
+            return self.num(args[0])
+        if name == "lerp" and len(args) == 3:
+            return alu.lerp(*[self.num(a) for a in args])
         if name == "yield_":
             self.effect("yield")
             return 0.0
